@@ -1424,9 +1424,17 @@ class ListNode(SyntaxNodeBase):
                 and isinstance(node, ShortcutNode)
                 and node._shares_edge
             ):
-                ret += node.format(last_node)
+                text = node.format(last_node)
             else:
-                ret += node.format()
+                text = node.format()
+            if (
+                isinstance(node, ShortcutNode)
+                and i < length - 1
+                and text
+                and not text[-1].isspace()
+            ):
+                text += " "
+            ret += text
             last_node = node
         return ret
 
@@ -1732,7 +1740,7 @@ class ShortcutNode(ListNode):
                 new_val = 10 ** (begin + spacing * (i + 1))
             else:
                 new_val = begin + spacing * (i + 1)
-            self.append(ValueNode(str(new_val), float, never_pad=True))
+            self.append(ValueNode(str(new_val), float))
         self._begin = begin
         self._end = end
         self._spacing = spacing
@@ -1855,14 +1863,27 @@ class ShortcutNode(ListNode):
             Shortcuts.REPEAT,
             Shortcuts.INTERPOLATE,
             Shortcuts.LOG_INTERPOLATE,
+            Shortcuts.MULTIPLY,
         }:
             return True
         nodes = list(self.nodes)
         if leading_node is not None and len(leading_node.nodes) > 0:
             nodes.insert(0, leading_node.nodes[-1])
+        # too few values for the shortcut to mean anything (nR: 2, xM: exactly 2, nI: 3)
+        if self._type == Shortcuts.MULTIPLY:
+            if len(nodes) != 2:
+                return False
+        elif len(nodes) < (2 if self._type == Shortcuts.REPEAT else 3):
+            return False
         values = [node.value for node in nodes]
-        if len(values) < 2 or any(value is None for value in values):
+        if any(value is None for value in values):
             return True
+        if any(not isinstance(value, (int, float)) for value in values):
+            # enumerations and words can only be repeated
+            return all(value == values[0] for value in values)
+        if self._type == Shortcuts.MULTIPLY:
+            # nothing multiplied by zero gives a non-zero value
+            return values[0] != 0 or values[-1] == 0
         if self._type == Shortcuts.REPEAT:
             expected = [values[0]] * len(values)
         else:
@@ -1900,9 +1921,25 @@ class ShortcutNode(ListNode):
             virtual_nodes = nodes[first:-1]
         for node in virtual_nodes:
             node.padding = PaddingNode(" ")
-        ret = "".join(node.format() for node in nodes)
+        ret = ""
+        for node in nodes:
+            if ret and not ret[-1].isspace():
+                ret += " "
+            ret += node.format()
         if self.end_padding:
             ret = ret.rstrip(" ")
+        return ret
+
+    @staticmethod
+    def _format_first_value(node):
+        """
+        Formats the value a shortcut starts from, followed by at least one blank.
+
+        :rtype: str
+        """
+        ret = node.format()
+        if ret and not ret[-1].isspace():
+            ret += " "
         return ret
 
     def format(self, leading_node=None):
@@ -1941,14 +1978,14 @@ class ShortcutNode(ListNode):
         else:
             num_jumps = self._num_node
 
-        return f"{num_jumps.format()}{j}"
+        return f"{num_jumps.format().strip()}{j}"
 
     def _format_repeat(self, leading_node=None):
         if leading_node is not None:
             first_val = ""
             num_extra = 0
         else:
-            first_val = self.nodes[0].format()
+            first_val = self._format_first_value(self.nodes[0])
             num_extra = 1
         num_repeats = len(self.nodes) - num_extra
         self._num_node.value = num_repeats
@@ -1964,7 +2001,7 @@ class ShortcutNode(ListNode):
             num_repeats = ""
         else:
             num_repeats = self._num_node
-        return f"{first_val}{num_repeats.format()}{r}"
+        return f"{first_val}{num_repeats.format().strip()}{r}"
 
     def _format_multiply(self, leading_node=None):
         if leading_node is not None:
@@ -1972,20 +2009,31 @@ class ShortcutNode(ListNode):
             first_val_str = ""
         else:
             first_val = self.nodes[0]
-            first_val_str = first_val
+            first_val_str = self._format_first_value(first_val)
         if "M" in self._original[-1]:
             m = "M"
         else:
             m = "m"
-        self._num_node.value = self.nodes[-1].value / first_val.value
-        return f"{first_val_str.format()}{self._num_node.format()}{m}"
+        # zero times anything is zero: the multiplier of the input is as good as any
+        if first_val.value != 0:
+            self._num_node.value = self.nodes[-1].value / first_val.value
+        multiplier = self._num_node.format().strip()
+        if not math.isclose(
+            first_val.value * fortran_float(multiplier),
+            self.nodes[-1].value,
+            rel_tol=rel_tol / 2,
+            abs_tol=abs_tol,
+        ):
+            # the multiplier cannot be written precisely enough
+            return self._format_expanded(leading_node is not None)
+        return f"{first_val_str}{multiplier}{m}"
 
     def _format_interpolate(self, leading_node=None):
         if leading_node is not None:
             start = ""
             num_extra_nodes = 1
         else:
-            start = self.nodes[0]
+            start = self._format_first_value(self.nodes[0])
             num_extra_nodes = 2
         end = self.nodes[-1]
         num_interp = len(self.nodes) - num_extra_nodes
@@ -2011,7 +2059,7 @@ class ShortcutNode(ListNode):
             padding = self._original[2]
         else:
             padding = PaddingNode(" ")
-        return f"{start.format()}{num_interp.format()}{interp}{padding.format()}{end.format()}"
+        return f"{start}{num_interp.format().strip()}{interp}{padding.format()}{end.format()}"
 
 
 class ClassifierNode(SyntaxNodeBase):
